@@ -32,10 +32,11 @@ TStart == /\ IsEvent("Start") /\ UNCHANGED tid
 ChkAfter == /\ Chk(IF Rec.done THEN "completed although a piece is missing" ELSE "not completed although every piece arrived",
                    Rec.done = done')
             /\ Chk("complete but reassembly differs from the payload", done' => Rec.asm_is_payload)
+\* the pieces come from the real sender: one the payload does not have is the sender's fault, not the driver's
 TArrive == /\ IsEvent("Arrive") /\ UNCHANGED tid
-           /\ Env("piece exists", Rec.i \in 0..Last)
-           /\ Arrive(Rec.i)
-           /\ ChkAfter
+           /\ IF Rec.i \in 0..Last
+              THEN Arrive(Rec.i) /\ ChkAfter
+              ELSE UNCHANGED vars /\ Chk("sender: piece beyond the end of the payload", FALSE)
 TForeign == /\ IsEvent("Foreign") /\ UNCHANGED tid
             /\ Foreign
             /\ ChkAfter
